@@ -101,17 +101,19 @@ Print Assumptions C14_find_all_reports_words.
    (Perl/PCRE-style) backtracking matcher finds the ways d can match at position p, written on the syntax of
    the expression alone: a concatenation tries, for every end of its first part in order, every end of the
    rest; l|r tries all of l before r; a greedy quantifier iterates once more before it stops, a lazy one
-   stops before it iterates, both within their bounds.  For every regular expression proper whose bracket
-   classes list no byte twice, the ordered outcomes of the resolved pattern (C01: the VM reports the first
-   of them) end at exactly these positions IN EXACTLY THIS ORDER, from every state of every text. *)
+   stops before it iterates, both within their bounds; ^ and $ hold at line boundaries.  For every expression
+   of the supported subset WITHOUT BACK-REFERENCES ([oreg_disj]: ASCII characters, `.`, classes, bracket classes
+   that list no byte twice, all kinds of groups, ^ $, quantifiers m <= n over atoms that are not nullable -
+   the property's proviso) the ordered outcomes of the resolved pattern (C01: the VM reports the first of
+   them) end at exactly these positions IN EXACTLY THIS ORDER, from every state of every text, whatever the
+   subroutine table. *)
 Theorem C14_outcomes_in_backtracking_order :
-  forall text start defs, (forall t b p, defs t = Some (b, p) -> p = PNil /\ Lang.pure b) ->
-  forall d, RegexLang.reg_disj d -> RegexOrder.ord_disj d ->
+  forall text start defs d, RegexOrder.oreg_disj d ->
   forall g off gs r gs', resolve_exprs (fst (tr_disj d g)) off gs = GOk (r, gs') ->
   forall s l, (fst s <= length text)%nat -> Sem.outs text start defs r s l -> RegexOrder.rd_ord text d (fst s) (map fst l).
 Proof.
-  intros text start defs Hdefs d Hreg Hord g off gs r gs' Hres.
-  exact (proj2 (proj2 (proj2 (RegexOrderSound.regex_order_mut text start defs Hdefs))) d Hreg Hord g off gs r gs' Hres).
+  intros text start defs d Hreg g off gs r gs' Hres.
+  exact (proj1 (proj2 (proj2 (proj2 (RegexOrderSound.regex_order_mut text start defs))) d Hreg g off gs r gs' Hres)).
 Qed.
 Print Assumptions C14_outcomes_in_backtracking_order.
 
@@ -122,7 +124,7 @@ Print Assumptions C14_outcomes_in_backtracking_order.
    otherwise.  No derivation, fuel or pattern tree appears in the hypotheses. *)
 Theorem C14_find_all_is_the_backtracking_scan :
   forall d g e g' gs rc gs' text,
-  wf_disj d [] -> RegexLang.reg_disj d -> RegexOrder.ord_disj d -> ResolveOk.gs_ok gs ->
+  wf_disj d [] -> RegexOrder.oreg_disj d -> ResolveOk.gs_ok gs ->
   parse_regexp (show_disj d) g = POk (e, g') ->
   resolve_exprs (ECons e ENil) 0 gs = GOk (rc, gs') ->
   exists F, forall fuel, (F <= fuel)%nat ->
@@ -130,6 +132,14 @@ Theorem C14_find_all_is_the_backtracking_scan :
       RegexOrder.rscan text d 0 (map (fun m => (Scan.mstart m, Scan.mend m)) M).
 Proof. exact RegexOrderFind.regex_find_all_order_lemma. Qed.
 Print Assumptions C14_find_all_is_the_backtracking_scan.
+
+(* no end lies before its start, and none AT its start when the expression is (syntactically) not nullable:
+   [nn_disj] is the usual non-nullability, the form in which the order theorems take the property's proviso *)
+Theorem C14_not_nullable_means_consuming :
+  forall text d p l, RegexOrder.rd_ord text d p l ->
+  Forall (le p) l /\ (RegexOrder.nn_disj d = true -> Forall (lt p) l).
+Proof. intros text d p l H. exact (proj1 (proj2 (proj2 (proj2 (RegexOrderFun.ord_advances_mut text)))) d p l H). Qed.
+Print Assumptions C14_not_nullable_means_consuming.
 
 (* the order specification is a function: one list of ends per expression, text and position, one scan per
    text - so the two theorems above determine what is found *)
@@ -222,8 +232,8 @@ Proof. split; [exact ResolveOk.init_gs_ok|]. vm_compute. eexists _, _, _, _. spl
 
 (* non-vacuity of the order: on "aaab"  a+  finds the ends 3, 2, 1 in this order and  a+?  the ends 1, 2, 3;
    on "abb"  (?:(?:ab)|a)b?  tries ab.b, ab, a.b, a  - ends 3, 2, 2, 1 *)
-Ltac ord1 := cbv [RegexOrder.step1 nth_error RegexOrder.dot_ok];
-  first [ apply RegexOrder.ro_nil | apply RegexOrder.re_nil | apply RegexOrder.rqe_nil | apply RegexOrder.ro_char | apply RegexOrder.ro_esc
+Ltac ord1 := cbv [RegexOrder.step1 nth_error RegexOrder.dot_ok RegexOrder.at_bol RegexOrder.at_eol Nat.eqb Nat.sub Nat.add length orb andb N.eqb Pos.eqb];
+  first [ apply RegexOrder.ro_nil | apply RegexOrder.ro_bol | apply RegexOrder.ro_eol | apply RegexOrder.re_nil | apply RegexOrder.rqe_nil | apply RegexOrder.ro_char | apply RegexOrder.ro_esc
         | apply RegexOrder.ro_dot | apply RegexOrder.ro_cls | apply RegexOrder.ro_bracket
         | eapply RegexOrder.ro_group | eapply RegexOrder.ro_plain | (eapply RegexOrder.ro_quant; [reflexivity|]) | eapply RegexOrder.ro_one
         | eapply RegexOrder.ro_alt | eapply RegexOrder.ro_cons | eapply RegexOrder.re_cons | eapply RegexOrder.rqe_cons
@@ -236,16 +246,22 @@ Definition ex_alt : rdis :=
                                              (POne (RQ (RChar 97) None))) DNil)) None))
         (DCons (POne (RQ (RChar 98) (Some (QOpt, false)))) DNil).
 
+(* ^a+$ : at offset 2 of "a\na" (a line start) it ends at 3 (the end of the text); at offset 1 of "aa\n" (not a line start) nothing *)
+Definition ex_anchored : rdis := DCons (POne RBol) (DCons (POne (RQ (RChar 97) (Some (QPlus, false)))) (DCons (POne REol) DNil)).
+
 Example C14_order_witness :
   (exists l, RegexOrder.rd_ord [97; 97; 97; 98] (ex_plus false) 0 l /\ l = [3; 2; 1]%nat) /\
   (exists l, RegexOrder.rd_ord [97; 97; 97; 98] (ex_plus true) 0 l /\ l = [1; 2; 3]%nat) /\
   (exists l, RegexOrder.rd_ord [97; 98; 98] ex_alt 0 l /\ l = [3; 2; 2; 1]%nat) /\
-  RegexLang.reg_disj ex_reg /\ RegexOrder.ord_disj ex_reg.
+  (exists l, RegexOrder.rd_ord [97; 10; 97] ex_anchored 2 l /\ l = [3]%nat) /\
+  (exists l, RegexOrder.rd_ord [97; 97; 10] ex_anchored 1 l /\ l = []) /\
+  RegexOrder.oreg_disj ex_reg /\ RegexOrder.oreg_disj ex_alt /\ RegexOrder.oreg_disj ex_anchored /\ RegexOrder.oreg_disj (ex_plus true).
 Proof.
-  split; [|split; [|split; [|split]]].
+  split; [|split; [|split; [|split; [|split]]]].
   - eexists. split; [repeat ord1|cbv; reflexivity].
   - eexists. split; [repeat ord1|cbv; reflexivity].
   - eexists. split; [repeat ord1|cbv; reflexivity].
-  - exact (proj1 (proj2 C14_language_witness)).
-  - cbn. auto.
+  - eexists. split; [repeat ord1|cbv; reflexivity].
+  - eexists. split; [repeat ord1|cbv; reflexivity].
+  - cbn. repeat split; try reflexivity; try (apply N.ltb_lt; reflexivity); try (eexists _, _; split; [reflexivity|]; (left; reflexivity) || (right; cbn; lia)).
 Qed.
